@@ -510,6 +510,10 @@ def simplify_proj(t):
     if t[0] != 'field':
         return t
     base, pr = t[1], t[2]
+    if base[0] == 'closure' and pr.startswith('upvar:') and len(base) > 3:
+        names = base[3].split('\x1f') if base[3] else []
+        if pr[6:] in names and names.index(pr[6:]) < len(base[2]):
+            return base[2][names.index(pr[6:])]
     if base[0] == 'agg' and base[4]:
         fname = pr.split('.')[-1]
         names = base[4].split(',')
@@ -651,6 +655,11 @@ def combinator_plan(callee, args):
             return x, RES, [('Ok', ('val', ('const', 'false'))), ('Err', ('app', args[1], [E], ident))]
     if 'core::bool::' in callee and callee.endswith('::then') and len(args) == 2:
         return args[0], 'bool', [('true', ('app', args[1], [], mk_some)), ('false', ('val', NONE_TERM))]
+    # a local closure called directly: f(a, b)
+    if re.search(r'ops::Fn(Once|Mut)?>?::call(_once|_mut)?$', nc) and len(args) == 2 and args[0][0] == 'closure':
+        tup = args[1]
+        if tup[0] == 'agg' and tup[1] == 'tuple':
+            return None, 'direct', [('', ('app', args[0], list(tup[3]), ident))]
     return None
 
 
@@ -819,7 +828,8 @@ class Fn:
             return ('discr', self.place_term(rv['p'], env, heap), rv.get('adt', ''))
         if k == 'agg':
             if rv['adt'].startswith('closure:'):
-                return ('closure', rv['adt'][8:], tuple(self.op_term(o, env, heap) for o in rv['ops']))
+                cb_ = self.facts.by.get(rv['adt'][8:])
+                return ('closure', rv['adt'][8:], tuple(self.op_term(o, env, heap) for o in rv['ops']), '\x1f'.join(cb_.get('caps', [])) if cb_ else '')
             return ('agg', rv['adt'], rv.get('variant', ''), tuple(self.op_term(o, env, heap) for o in rv['ops']),
                     ','.join(rv.get('fields', [])))
         return ('unk', k + ':' + str(rv.get('v', ''))[:40])
@@ -836,9 +846,16 @@ class Fn:
                 if f[0] == 'closure':
                     if f[1] not in facts.by:
                         return None
-                elif f[0] != 'fnitem':
+                elif f[0] == 'fnitem':
+                    pass
+                elif adt == 'direct' and f[0] == 'callee-closure':
+                    pass
+                else:
                     return None
-        if adt == 'bool':
+        if adt == 'direct':
+            dterm, key, known = None, None, ''
+            canon = lambda lab: lab
+        elif adt == 'bool':
             dterm = subject
             key, flipped = canon_decision(dterm)
             okey, omap = option_decision(dterm)
@@ -884,6 +901,8 @@ class Fn:
                 res.append((evs + ([ev] if not is_noise_call(f[1]) else []), wrap(v), 'return', m2))
                 continue
             cname = f[1]
+            if f[0] == 'callee-closure':
+                f = f[2]
             cb = facts.by[cname]
             cf = facts.fn(cb)
             try:
@@ -896,8 +915,12 @@ class Fn:
             for i, a in enumerate(fargs):
                 amap[2 + i] = a
             for i, c in enumerate(cb.get('caps', [])):
-                if i < len(f[2]):
+                if f[0] == 'closure' and i < len(f[2]):
                     amap[('upvar', cf.upvar_names.get('upvar:' + c, c))] = f[2][i]
+                else:
+                    # the closure value is not known here (e.g. itself a capture of an enclosing
+                    # closure): leave a projection that resolves once it is substituted
+                    amap[('upvar', cf.upvar_names.get('upvar:' + c, c))] = ('field', f, 'upvar:' + c)
             for cp in cps:
                 facts._inst[0] += 1
                 evs2, retv, _rh = instantiate_path(cp, (), facts._inst[0], held, cname, amap=amap)
@@ -1015,13 +1038,28 @@ class Fn:
                     args = tuple(self.op_term(a, env, heap) for a in t['args'])
                     dest = t['dest']
                     plan = combinator_plan(callee, args) if desugar and _depth < 4 and t['t'] >= 0 else None
-                    if plan is not None and not any(a['k'] == 'move' and not a['p']['proj'] and a['p']['local'] in guards for a in t['args']):
+                    if plan is None and desugar and _depth < 4 and t['t'] >= 0 and len(args) == 2 and facts.by.get(callee, {}).get('kind') == 'closure' \
+                            and args[1][0] == 'agg' and args[1][1] == 'tuple':
+                        # a local closure called directly (resolved to its body): f(a, b)
+                        fclo = args[0] if args[0][0] == 'closure' and args[0][1] == callee else ('callee-closure', callee, args[0])
+                        plan = (None, 'direct', [('', ('app', fclo, list(args[1][3]), lambda v: v))])
+                    if plan is not None:
                         branches = self.desugar_branches(plan, memo, bb, t, held_of(guards), max_visits, _depth, desugar)
                         if branches is not None:
+                            # a guard moved into the combinator (a temporary like map.get(k).is_some_and(..))
+                            # lives while the callable runs and is released when the combinator returns
+                            moved_g = [a['p']['local'] for a in t['args'] if a['k'] == 'move' and not a['p']['proj'] and a['p']['local'] in guards]
+                            rel_after = []
+                            if moved_g:
+                                guards = dict(guards)
+                                for m in moved_g:
+                                    g = guards.pop(m)
+                                    rel_after.append(Ev('release', bb, t['line'], held_of(guards), guard=g, cls=g[0], on=g[1], moved=callee))
                             for evs2, val2, end2, memo2 in branches:
                                 if end2 != 'return':
                                     out.append(Path(events + evs2, end2, trail))
                                     continue
+                                evs2 = evs2 + rel_after
                                 env2 = dict(env)
                                 heap2 = heap
                                 for e2 in evs2:
